@@ -36,6 +36,7 @@ def drop(wt):
 
 
 def verify(d, full=True):
+    d = os.path.abspath(d)
     meta = json.load(open(os.path.join(d, "meta.json")))
     demo = os.path.join(d, meta["demo_file"])
     wt = worktree(os.path.basename(os.path.dirname(d.rstrip("/"))) + os.path.basename(d.rstrip("/")))
@@ -126,7 +127,9 @@ if __name__ == "__main__":
     a = ap.parse_args()
     if a.cmd == "verify":
         r = verify(a.arg, not a.nosuite)
-        print(json.dumps({k: v for k, v in r.items() if k != "meta"}, indent=1))
+        r.pop("meta", None)
+        json.dump(r, open(os.path.join(os.path.abspath(a.arg), "verify.json"), "w"), indent=1)
+        print(json.dumps(r, indent=1))
         sys.exit(0 if r.get("confirmed") else 1)
     if a.cmd == "run":
         sys.exit(run(a.arg, a.tier, a.repo))
